@@ -45,7 +45,7 @@ ASSUMPTIONS = [
     'reference monitors in mc/refmodels/proto_axi.py are trusted',
 ]
 BOUNDS = {
-    'quick': 'Axi2Reg q width 2 / stream 8 bits / tdata in {0x00,0x01,0x02,0xFF}; Reg2Axi reg_in width 2 (all 4 values) / stream 8 bits; '
+    'quick': 'Axi2Reg on streams with the TLAST/TKEEP side-band driven freely (stream 8 and 16 bits); Reg2Axi reg_in widths 9, 12, 17 (partial top byte); Axi2Reg q width 2 / stream 8 bits / tdata in {0x00,0x01,0x02,0xFF}; Reg2Axi reg_in width 2 (all 4 values) / stream 8 bits; '
              'all 2^k control/handshake bits per step; full closure',
     'thorough': 'Axi2Reg q widths 1,2,3,8 with stream 8 and q width 2 with stream 16, tdata = all 8 low-bit patterns x {0x00,0xF8} high '
                 'bits (x 0xFF00 for stream 16); Reg2Axi reg_in widths 1,2,3 (all values), 8 and 9 (stream 16; boundary values); composed '
@@ -67,6 +67,15 @@ REQUIRED_COV = {
 def shards(tier):
     out = [{'adapter': 'Axi2Reg', 'qw': 2, 'sw': 8, 'alpha': list(Q_ALPHA)},
            {'adapter': 'Reg2Axi', 'w': 2, 'sw': 8, 'alpha': [0, 1, 2, 3]}]
+    # the stream carries the optional TLAST/TKEEP side-band (any value, every cycle): a transferred beat is a beat whatever they say
+    side = [{'adapter': 'Axi2Reg', 'qw': 2, 'sw': 8, 'alpha': [0x00, 0x01, 0xFE], 'side': 1},
+            {'adapter': 'Axi2Reg', 'qw': 2, 'sw': 16, 'alpha': [0x0000, 0xFF02], 'side': 1}]
+    # register widths that are not a multiple of 8 (partial top byte in the KEEP mask)
+    odd = [{'adapter': 'Reg2Axi', 'w': 9, 'sw': 16, 'alpha': [0x000, 0x1FF]},
+           {'adapter': 'Reg2Axi', 'w': 12, 'sw': 16, 'alpha': [0x001, 0x800]},
+           {'adapter': 'Reg2Axi', 'w': 17, 'sw': 32, 'alpha': [0x10000, 0x0FFFF]}]
+    if tier != 'thorough':
+        out += side + odd
     if tier == 'thorough':
         full = [lo | hi for hi in (0x00, 0xF8) for lo in range(8)]
         out = []
@@ -77,6 +86,7 @@ def shards(tier):
             out.append({'adapter': 'Reg2Axi', 'w': w, 'sw': 8, 'alpha': list(range(1 << w))})
         out.append({'adapter': 'Reg2Axi', 'w': 8, 'sw': 8, 'alpha': [0x00, 0x01, 0x80, 0xFF]})
         out.append({'adapter': 'Reg2Axi', 'w': 9, 'sw': 16, 'alpha': [0x000, 0x001, 0x100, 0x1FF]})
+        out += side + odd[1:]
         for dut in ('wire', 'reg'):
             out.append({'adapter': 'pair', 'dut': dut, 'qw': 2, 'sw': 8, 'alpha': list(Q_ALPHA)})
     return out
@@ -118,9 +128,14 @@ def build(d):
     if a == 'Axi2Reg':
         st, rs, dn = hw.wire('ap_start'), hw.wire('ap_reset'), hw.wire('ap_done')
         q, loaded, active = hw.wire('q', d['qw']), hw.wire('loaded'), hw.wire('active')
-        s = AXI4StreamInterface(hw, 'stream', dw=d['sw'])
+        if d.get('side'):
+            s = AXI4StreamInterface(hw, 'stream', dw=d['sw'], has_tlast=True, has_tkeep=True)
+        else:
+            s = AXI4StreamInterface(hw, 'stream', dw=d['sw'])
         vw.Axi2Reg(hw, 'dut', st, rs, dn, s, q, loaded, active)
         ins = [('ap_start', st, B), ('ap_reset', rs, B), ('ap_done', dn, B), ('tvalid', s.tvalid, B), ('tdata', s.tdata, d['alpha'])]
+        if d.get('side'):
+            ins += [('tlast', s.tlast, B), ('tkeep', s.tkeep, sorted({0, 1, (1 << (d['sw'] // 8)) - 1}))]
         mon = proto_axi.Axi2RegMonitor(d['qw'])
         xm = {n: w for n, w, _ in ins}
         om = {'active': active, 'tready': s.tready, 'q': q, 'loaded': loaded}
